@@ -495,6 +495,7 @@ func ruleArchiveIDDispatch(w *World, r *Report, rule string) {
 					return
 				}
 				called[a.i] = true
+				s.log = append(s.log, fmt.Sprint(a.i))
 				if a.i < 0 || a.i >= nArch {
 					badArg = fmt.Sprintf("archive id %d on a file with %d archives", a.i, nArch)
 				}
@@ -505,10 +506,28 @@ func ruleArchiveIDDispatch(w *World, r *Report, rule string) {
 				break
 			}
 			nOK := 0
+			shortPath := false
 			for _, l := range e.leaves {
 				if l.ret != nil && !isFailureReturn(l.ret) {
 					nOK++
+					// every successful path has read what the selection names (a `break` on an absent series
+					// leaves the coarser archives unread)
+					has := map[string]bool{}
+					if l.st != nil {
+						for _, x := range l.st.log {
+							has[x] = true
+						}
+					}
+					if id == -1 && !(has["0"] && has["1"]) {
+						shortPath = true
+					}
+					if id >= 0 && id < nArch && !has[fmt.Sprint(id)] {
+						shortPath = true
+					}
 				}
+			}
+			if shortPath && badArg == "" {
+				bad = append(bad, fmt.Sprintf("selection %d: a path returns success without having read every selected archive (the loop is left early)", id))
 			}
 			switch {
 			case badArg != "":
